@@ -88,8 +88,31 @@ func (c *ClusterInfo) snapshotQueueResourceUsage() (*queue_info.ClusterUsage, er
 // UpdateQueueHierarchy iterates over a map containing multiple levels of queue hierarchies, and updates queues with
 // child queues where relevant
 func UpdateQueueHierarchy(queues map[common_info.QueueID]*queue_info.QueueInfo) {
+	cleanQueueCycles(queues)
 	updateQueueChildren(queues)
 	cleanQueueOrphans(queues)
+}
+
+// cleanQueueCycles removes queues whose parent chain never reaches a top-level queue because it runs into a cycle
+// (a queue that is its own ancestor). Every walk up the hierarchy relies on the chain being finite.
+func cleanQueueCycles(queues map[common_info.QueueID]*queue_info.QueueInfo) {
+	cyclic := map[common_info.QueueID]bool{}
+	for queueId := range queues {
+		visited := map[common_info.QueueID]bool{}
+		for current, found := queues[queueId]; found; current, found = queues[current.ParentQueue] {
+			if visited[current.UID] || cyclic[current.UID] {
+				for visitedId := range visited {
+					cyclic[visitedId] = true
+				}
+				break
+			}
+			visited[current.UID] = true
+		}
+	}
+	for queueId := range cyclic {
+		log.InfraLogger.V(2).Warnf("Found queue %s with a cyclic parent chain, deleting it", queueId)
+		delete(queues, queueId)
+	}
 }
 
 func updateQueueChildren(queues map[common_info.QueueID]*queue_info.QueueInfo) {
